@@ -189,6 +189,9 @@ pub struct Stats {
     /// Atomic operations of the instrumented library at which the scheduler looked / preempted.
     pub atomic_yields: u64,
     pub preempt_atomic: u64,
+    /// Operations at whose start or end the process had threads the simulator does not own (the
+    /// tree under test started them): such a run is not a function of the decisions alone.
+    pub ops_with_outside_threads: u64,
 }
 
 impl Stats {
@@ -235,6 +238,7 @@ impl Stats {
         self.rare_site_suspensions += o.rare_site_suspensions;
         self.atomic_yields += o.atomic_yields;
         self.preempt_atomic += o.preempt_atomic;
+        self.ops_with_outside_threads += o.ops_with_outside_threads;
     }
 }
 
@@ -479,6 +483,7 @@ struct Inner {
     /// Thread ids of the process when the simulation was created plus those of its workers: a
     /// thread with another id is one the simulator does not know - it may still wake a waiter.
     known_tids: std::collections::BTreeSet<u64>,
+    workers_registered: usize,
     finished_jobs: std::collections::BTreeSet<u64>,
     next_job_id: u64,
     policy: Policy,
@@ -730,6 +735,7 @@ impl Sim {
                 driver_yielded: false,
                 driver_looks: 0,
                 known_tids: thread_ids(),
+                workers_registered: 0,
                 finished_jobs: Default::default(),
                 next_job_id: 1,
                 policy: Policy {
@@ -886,6 +892,21 @@ impl Sim {
                 futex_timeout: false,
                 suspend_until: 0,
             });
+        }
+        // wait until every new worker has told its thread id (it does so first thing): from here on
+        // a thread id that is not known belongs to a thread the simulator does not own
+        let before = g.known_tids.len();
+        drop(g);
+        let _ = before;
+        loop {
+            let g = self.lock();
+            let have = g.workers_registered;
+            let need: usize = g.pools.iter().map(|p| p.workers.len()).sum();
+            drop(g);
+            if have >= need {
+                break;
+            }
+            thread::yield_now();
         }
     }
 
@@ -1353,6 +1374,9 @@ impl Sim {
 
     fn end_root_op(self: &Arc<Sim>) {
         let mut g = self.lock();
+        if thread_ids().iter().any(|t| *t != u64::MAX && !g.known_tids.contains(t)) {
+            g.stats.ops_with_outside_threads += 1;
+        }
         let t = (g.op.hash, g.op.shape, g.op.leaves);
         g.stats.max_leaves_per_op = g.stats.max_leaves_per_op.max(g.op.leaves);
         let used = g.pools[g.active].workers.iter().filter(|w| w.ran_anything).count() as u64;
@@ -1590,7 +1614,9 @@ fn worker_main(sim: Arc<Sim>, pool_idx: usize, idx: usize, parker: Arc<Parker>) 
     bbguard::set_thread_worker(true);
     {
         let tid = unsafe { crate::sys::raw6(libc::SYS_gettid, 0, 0, 0, 0, 0, 0) } as u64;
-        sim.lock().known_tids.insert(tid);
+        let mut g = sim.lock();
+        g.known_tids.insert(tid);
+        g.workers_registered += 1;
     }
     // wait for the first token
     sim.park_worker_initial(&parker);
